@@ -33,10 +33,24 @@ func draw(t *rapid.T) sim.ChainCase {
 	g := sim.GenChain(t, sim.GenOpts{
 		Net:       sim.NetOpts{MaxForkHeight: rapid.SampledFrom([]int{6, 12, 25, 40}).Draw(t, "forkSpan"), V2Only: rapid.IntRange(0, 5).Draw(t, "v2only") == 0},
 		MinBlocks: 8, MaxBlocks: max, Reorgs: true, Profile: sim.Profile{Contracts: rapid.IntRange(0, 2).Draw(t, "contractWeight")},
+		OnBlock: func(g *sim.Gen, b *sim.Builder) {
+			sim.SameBlockScenarios(g, b)
+			// the block in which the ephemeral-parent rules switch on carries a siafund transfer and a payment, so
+			// that the inflation probes below have something to build on exactly at that height
+			if e := g.C.Net.HardforkV2.EphemeralOutputHeight; b.Child == e || b.Child == e+1 {
+				b.AfterV1(func() {
+					b.V2Siafunds()
+					b.V2Pay()
+				})
+			}
+		},
 		BeforeApply: func(g *sim.Gen, honest types.Block, bs consensus.V1BlockSupplement) {
-			// siblings whose outputs are padded with values that cancel in wrapping arithmetic: whatever validation
-			// accepts of them must conserve value (accepted => sound)
-			if len(honest.Transactions)+len(honest.V2Transactions()) > 0 && rapid.IntRange(0, 3).Draw(g.T, "wrapProbes") == 0 {
+			// siblings whose outputs are padded with values that cancel in wrapping arithmetic, or that spend an
+			// output of the block while claiming twice its value: whatever validation accepts of them must conserve
+			// value (accepted => sound)
+			e := g.C.Net.HardforkV2.EphemeralOutputHeight
+			child := g.C.Height() + 1
+			if len(honest.Transactions)+len(honest.V2Transactions()) > 0 && (child == e || child == e+1 || rapid.IntRange(0, 3).Draw(g.T, "wrapProbes") == 0) {
 				g.NewAdv(honest).InflationProbes()
 			}
 		},
